@@ -178,12 +178,16 @@ theorem pushDefaultK_cnt : ∀ (b : B) (k : Nat) (b' : B), pushDefaultK b k = .o
     simp only [pushDefaultK, ctx_ok] at h
     split at h
     · simp [fail] at h
-    · obtain ⟨fs', h1, h2⟩ := (bind_ok _ _ _).1 h
-      cases h2
-      simp only [Cnt] at hc ⊢
-      refine ⟨pushDefaultKAt_cnt _ _ k fs' h1 hc.1, ?_⟩
-      have := counters_step cur types.length k (firstReal (.cons c m rest)) hc.2
-      simpa only [List.length_append, List.length_replicate] using this
+    · split at h
+      · simp [fail] at h
+      · obtain ⟨fs', h1, h2⟩ := (bind_ok _ _ _).1 h
+        split at h2
+        · simp [fail] at h2
+        · cases h2
+          simp only [Cnt] at hc ⊢
+          refine ⟨pushDefaultKAt_cnt _ _ k fs' h1 hc.1, ?_⟩
+          have := counters_step cur types.length k (firstReal (.cons c m rest)) hc.2
+          simpa only [List.length_append, List.length_replicate] using this
 theorem pushDefaultKAll_cnt : ∀ (fs : BL) (k : Nat) (fs' : BL), pushDefaultKAll fs k = .ok fs' → CntL fs → CntL fs'
   | .nil, k, fs', h, _ => by simp [pushDefaultKAll] at h; subst h; simp [CntL]
   | .cons b m rest, k, fs', h, hc => by
